@@ -677,6 +677,71 @@ func rulesC19(c *Ctx) {
 		c.Check(okEsc, "jsonMarshal:no-html-escaping", jm, nil, "the message encoder disables HTML escaping (payload bytes are preserved)")
 	})
 
+	c.Rule("R-C19-9", "what the peer said survives the transports' own error wrapping and read-ahead: when an error is wrapped together with jsonrpc2.ErrRejected the peer's error comes first (errors.As finds the first *WireError in the chain), and the newline-delimited reader keeps one json.Decoder for the life of the connection (its read-ahead buffer holds the next messages)", func() {
+		rej := c.Obj(pJ, "ErrRejected")
+		respErr := c.Field(pJ, "Response", "Error")
+		n := 0
+		for _, f := range c.funcsWithLits(pM) {
+			for _, call := range f.AllCalls(f.Body, false) {
+				ws := f.ErrorfWraps(call)
+				if len(ws) < 2 {
+					continue
+				}
+				ri, pi := -1, -1
+				for i, w := range ws {
+					if o := f.ObjOf(w); o != nil && sameObj(o, rej) {
+						ri = i
+					}
+					if f.IsField(w, respErr) {
+						pi = i
+					}
+				}
+				if ri < 0 || pi < 0 {
+					continue
+				}
+				n++
+				c.Check(pi < ri, "wrap-order:"+f.Name(), f, call, "the peer's JSON-RPC error is wrapped before ErrRejected (which is itself a *WireError with code -32005 and no data): errors.As and the re-encoding of the failure then report the peer's code, message and data")
+			}
+		}
+		c.Pin("errors wrapping both a peer error and ErrRejected", n, 1)
+		// one decoder per connection
+		nio := c.Fn(pM, "", "newIOConn")
+		nd := c.Std("encoding/json", "", "NewDecoder")
+		m := 0
+		for _, f := range append([]*Func{nio}, nio.AllLits()...) {
+			for _, call := range f.CallsIn(f.Body, nd, false) {
+				m++
+				inLoop := false
+				inspectNoLit(f.Body, func(x ast.Node) {
+					switch l := x.(type) {
+					case *ast.ForStmt:
+						if encloses(l.Body, call) {
+							inLoop = true
+						}
+					case *ast.RangeStmt:
+						if encloses(l.Body, call) {
+							inLoop = true
+						}
+					}
+				})
+				// and it is the decoder the loop decodes from
+				dv := f.VarFromCall(nd, 0)
+				used := false
+				inspectNoLit(f.Body, func(x ast.Node) {
+					if l, ok := x.(*ast.ForStmt); ok {
+						for _, dc := range f.AllCalls(l.Body, false) {
+							if nm, on := f.SelectorOn(dc.Fun, dv); on && nm == "Decode" {
+								used = true
+							}
+						}
+					}
+				})
+				c.Check(!inLoop && used, "ioConn:one-decoder-per-connection", f, call, "json.NewDecoder is called once, outside the read loop that calls Decode on it: a decoder created per message throws away the bytes it read ahead, i.e. every message that arrived in the same Read as its predecessor")
+			}
+		}
+		c.Pin("json.NewDecoder sites in newIOConn", m, 1)
+	})
+
 	c.Rule("R-C19-7", "hand-written conversions between two protocol struct types copy every field the two types share: a composite literal S2{F: x.F, …} built from a value x of another struct type S1 names all fields common to S1 and S2 (custom MarshalJSON/UnmarshalJSON methods and the helpers they call)", func() {
 		structOf := func(t types.Type) (*types.Named, *types.Struct) {
 			if pt, ok := t.(*types.Pointer); ok {
